@@ -437,6 +437,29 @@ func famPersist(f *FamCtx) {
 	}
 	n := f.N(200, 8000)
 	for i := 0; i < n; i++ {
+		if i%25 == 24 {
+			// write-only history under ValuesLike == nil + registered types (binary format): inserts,
+			// updates, deletes, then ONE MakeRoot whose Store calls are compared with the encoder
+			cfg := RandCfg(f.Rand)
+			cfg.Fmt, cfg.NoVL, cfg.Cache, cfg.Reg = "bin", true, "none", false
+			uni := Universe(f.Rand, cfg, 6+f.Rand.Intn(40))
+			ops := []string{"new 0"}
+			live := map[uint64]uint64{}
+			for j := 0; j < 5+f.Rand.Intn(60); j++ {
+				k := pick(f.Rand, uni)
+				if v, ok := live[k]; ok && f.Rand.Intn(3) == 0 {
+					ops = append(ops, opDel(0, k, v))
+					delete(live, k)
+				} else {
+					v := uint64(f.Rand.Intn(4))
+					live[k] = v
+					ops = append(ops, opIns(0, k, v))
+				}
+			}
+			ops = append(ops, "root 0 0")
+			f.RunTreeCase(Case{cfg, ops}, exactRunner, multiLevel)
+			continue
+		}
 		if i%12 == 11 {
 			// a version in the shape an earlier release (or an interrupted Delete) leaves — taller than
 			// its entries warrant, an entry-less top node over a child — persisted, reloaded, persisted
